@@ -7,6 +7,7 @@ require (
 	github.com/openacid/errors v0.8.1
 	github.com/openacid/low v0.1.21
 	github.com/openacid/slim v0.0.0
+	github.com/openacid/testkeys v0.1.6
 )
 
 require (
